@@ -150,3 +150,88 @@ Qed.
 Theorem conditioning_too_small_loses :
   exists (base : list nat) req k, filter req (filter k base) <> filter req base.
 Proof. exists [1; 2]%nat, (fun _ => true), (fun a => Nat.eqb a 1). cbn. discriminate. Qed.
+
+(* ---- the bounding-box fast path of _bufferOverapproximate: every face moves out by the buffer.
+   Sup-norm statement (stronger than the Euclidean one: Euclidean distance <= b implies sup distance <= b). *)
+(* the returned box has the same midpoint and extents + 2b: each face is exactly b outside the bounds *)
+Lemma buffer_box_faces lo hi b :
+  box_mid lo hi - box_ext lo hi b / 2 == lo - b /\ box_mid lo hi + box_ext lo hi b / 2 == hi + b.
+Proof. unfold box_mid, box_ext. split; field. Qed.
+
+Lemma buffer_axis_sufficient lo hi b x y :
+  lo <= x <= hi -> Qabs (y - x) <= b ->
+  box_mid lo hi - box_ext lo hi b / 2 <= y <= box_mid lo hi + box_ext lo hi b / 2.
+Proof.
+  intros [A B] D. apply Qabs_Qle_condition in D. destruct D as [D1 D2].
+  destruct (buffer_box_faces lo hi b) as [E1 E2]. rewrite E1, E2. split; lra.
+Qed.
+
+Theorem buffer_box_sufficient : forall bounds b p q,
+  in_bounds bounds p -> sup_within b p q -> in_box (buffer_box bounds b) q.
+Proof.
+  unfold in_bounds, sup_within, in_box, buffer_box.
+  induction bounds as [|[lo hi] bounds IH]; intros b p q HB HD.
+  - inversion HB; subst. inversion HD; subst. constructor.
+  - inversion HB as [|? x ? p' Hx HB']; subst. inversion HD as [|? y ? q' Hy HD']; subst.
+    cbn [map fst snd]. constructor.
+    + cbn [fst snd] in *. now apply buffer_axis_sufficient with (x := x).
+    + now apply IH with (p := p').
+Qed.
+
+(* Euclidean form in three dimensions *)
+Lemma sq_le_abs d b : 0 <= b -> d * d <= b * b -> Qabs d <= b.
+Proof.
+  intros Hb H. apply Qabs_Qle_condition. split.
+  - apply Qnot_lt_le. intro L. assert (0 < - d - b) by lra. assert (b < - d) by lra.
+    assert (b * b < d * d) by nra. lra.
+  - apply Qnot_lt_le. intro L. assert (b * b < d * d) by nra. lra.
+Qed.
+
+Lemma sq_nonneg' (d : Q) : 0 <= d * d.
+Proof.
+  destruct (Qlt_le_dec d 0) as [L|L].
+  - assert (E : d * d == (- d) * (- d)) by ring. rewrite E. apply Qmult_le_0_compat; lra.
+  - apply Qmult_le_0_compat; lra.
+Qed.
+
+Theorem buffer_box_sufficient_euclid : forall l1 h1 l2 h2 l3 h3 b x1 x2 x3 y1 y2 y3,
+  0 <= b ->
+  in_bounds [(l1, h1); (l2, h2); (l3, h3)] [x1; x2; x3] ->
+  sqdist3 (x1, x2, x3) (y1, y2, y3) <= b * b ->
+  in_box (buffer_box [(l1, h1); (l2, h2); (l3, h3)] b) [y1; y2; y3].
+Proof.
+  intros l1 h1 l2 h2 l3 h3 b x1 x2 x3 y1 y2 y3 Hb HB HD.
+  apply buffer_box_sufficient with (p := [x1; x2; x3]); [exact HB|].
+  unfold sqdist3 in HD.
+  pose proof (sq_nonneg' (y1 - x1)) as S1. pose proof (sq_nonneg' (y2 - x2)) as S2. pose proof (sq_nonneg' (y3 - x3)) as S3.
+  unfold sup_within. repeat constructor; apply sq_le_abs; try exact Hb; lra.
+Qed.
+
+(* growing the extents by less than 2b in total (k < 2, e.g. the `+ minBuffer` slip: k = 1) loses points:
+   for every box and every positive buffer there is a point within b of the box outside the result *)
+Theorem buffer_box_k_insufficient : forall k lo hi b,
+  k < 2 -> 0 < b -> lo <= hi ->
+  in_bounds [(lo, hi)] [hi] /\ sup_within b [hi] [hi + b] /\ ~ in_box (buffer_box_k k [(lo, hi)] b) [hi + b].
+Proof.
+  intros k lo hi b Hk Hb Hl. split; [|split].
+  - repeat constructor; cbn; lra.
+  - repeat constructor. assert (E : hi + b - hi == b) by ring. rewrite E. rewrite Qabs_pos; lra.
+  - intro H. unfold in_box, buffer_box_k in H. cbn [map fst snd] in H. inversion H as [|? ? ? ? [_ U] _]; subst.
+    cbn [fst snd] in U. unfold box_mid in U.
+    assert (X : k * b < 2 * b) by (apply Qmult_lt_compat_r; assumption).
+    assert (E : (lo + hi) / 2 + (hi - lo + k * b) / 2 == hi + (1 # 2) * (k * b)) by field.
+    rewrite E in U. set (kb := k * b) in *. lra.
+Qed.
+
+Example buffer_box_example :
+  in_bounds [(1, 3); (-2, 2); (0, 1)] [3; -2; 1] /\ sup_within (1 # 2) [3; -2; 1] [7 # 2; -5 # 2; 1]
+  /\ in_box (buffer_box [(1, 3); (-2, 2); (0, 1)] (1 # 2)) [7 # 2; -5 # 2; 1]
+  /\ box_mid 1 3 == 2 /\ box_ext 1 3 (1 # 2) == 3.
+Proof.
+  assert (A : in_bounds [(1, 3); (-2, 2); (0, 1)] [3; -2; 1]).
+  { repeat constructor; cbn; lra. }
+  assert (B : sup_within (1 # 2) [3; -2; 1] [7 # 2; -5 # 2; 1]).
+  { repeat constructor; apply Qabs_Qle_condition; split; vm_compute; discriminate. }
+  split; [exact A|]. split; [exact B|]. split; [exact (buffer_box_sufficient _ _ _ _ A B)|].
+  split; vm_compute; reflexivity.
+Qed.
